@@ -76,6 +76,11 @@ var badSchemaDocs = []string{
 	"apiVersion: v1\nkind: Namespace\nmetadata:\n  name: ns1\n  labels:\n    team: y%d\nspec:\n  finalizers: kubernetes\n",
 	"apiVersion: v1\nkind: Service\nmetadata:\n  name: bad%d\n  namespace: ns1\nspec:\n  selector:\n    app: a\n  ports: not-a-list\n",
 	"apiVersion: policy.networking.k8s.io/v1alpha1\nkind: AdminNetworkPolicy\nmetadata:\n  name: bad%d\nspec:\n  priority: high\n  subject:\n    namespaces: {}\n",
+	// documents whose metadata and spec are fine and whose read-only `status` section does not convert (exported objects, hand-edited):
+	// they fail schema conversion as a whole - reported, and not used (each would add a workload / relabel the namespace if it were)
+	"apiVersion: apps/v1\nkind: Deployment\nmetadata:\n  name: bad%d\n  namespace: ns1\nspec:\n  replicas: 1\n  selector:\n    matchLabels:\n      app: a\n  template:\n    metadata:\n      labels:\n        app: a\n    spec:\n      containers:\n      - name: c\n        image: img\nstatus:\n  replicas: three\n",
+	"apiVersion: v1\nkind: Namespace\nmetadata:\n  name: ns1\n  labels:\n    team: y%d\nstatus:\n  phase: [Active]\n",
+	"apiVersion: apps/v1\nkind: StatefulSet\nmetadata:\n  name: bad%d\n  namespace: ns1\nspec:\n  selector:\n    matchLabels:\n      app: b\n  template:\n    metadata:\n      labels:\n        app: b\n    spec:\n      containers:\n      - name: c\n        image: img\nstatus:\n  conditions: {type: Ready}\n",
 }
 
 var brokenFiles = []string{
